@@ -64,6 +64,9 @@ def scenario_files(dirp):
     files['csv'] = (cli.write_file(dirp, 'a.csv', CSV_A), cli.write_file(dirp, 'b.csv', CSV_B))
     pa = {k: v for k, v in DOC_A.items() if v is not None}
     files['plist'] = (cli.write_file(dirp, 'a.plist', plistlib.dumps(pa)), cli.write_file(dirp, 'b.plist', plistlib.dumps(DOC_B)))
+    files['json-ml'] = (cli.write_file(dirp, 'ml_a.json', json.dumps(ML_A)), cli.write_file(dirp, 'ml_b.json', json.dumps(ML_B)))
+    files['yaml-ml'] = (cli.write_file(dirp, 'ml_a.yml', yaml.safe_dump(ML_A)), cli.write_file(dirp, 'ml_b.yml', yaml.safe_dump(ML_B)))
+    files['yaml-s'] = (cli.write_file(dirp, 's_a.yml', yaml.safe_dump({'name': 'hello'})), cli.write_file(dirp, 's_b.yml', yaml.safe_dump({'name': 'help'})))
     return files
 
 
@@ -72,12 +75,20 @@ MATCH = ([], ['-k'], ['-l'])
 RENDER = (['--no-color'], ['--color'], ['--html'])
 
 
+ML_A = {'text': 'line one\nline two', 'name': 'hello', 'k': [1, 2]}
+ML_B = {'text': 'line one\nline 2', 'name': 'help', 'k': [1, 3]}
+
+
 def scenarios(tier):
     out = []
     for f in FORMATS:
         for m in MATCH:
             for r in RENDER:
                 out.append((f, tuple(m), tuple(r)))
+    # documents whose string edits contain / do not contain newlines (formatter flags that survive a call)
+    for f in ('json-ml', 'yaml-ml', 'yaml-s'):
+        for r in RENDER[:2]:
+            out.append((f, (), tuple(r)))
     return out
 
 
